@@ -159,6 +159,21 @@ def _compare(run, ef, v, data, bad, voc_sht, voc_pt, voc_hdr, SEC_CLASS, SEG_CLA
                 got = [s.name for s in ef.iter_sections(type=tname)]
                 if got != [listed[i].name for i in want]:
                     bad('iter_sections.type', want, got)
+    # ---- the struct set survives pickling (ELFStructs.__getstate__/__setstate__): the re-created set names the same codes
+    import pickle
+    from elftools.common.utils import struct_parse
+    st2 = pickle.loads(pickle.dumps(ef.structs))
+    for s in v['sections'][:8]:
+        i = s['index']
+        a = struct_parse(st2.Elf_Shdr, ef.stream, ef['e_shoff'] + i * ef['e_shentsize'])
+        b = ef.get_section(i).header
+        if a['sh_type'] != b['sh_type'] or dict(a) != dict(b):
+            bad('pickled_structs.shdr', dict(b), dict(a))
+    for g in v['segments'][:8]:
+        a = struct_parse(st2.Elf_Phdr, ef.stream, ef['e_phoff'] + g['index'] * ef['e_phentsize'])
+        b = ef.get_segment(g['index']).header
+        if dict(a) != dict(b):
+            bad('pickled_structs.phdr', dict(b), dict(a))
     # ---- segments
     m = ef.num_segments()
     if m != v['num_segments']:
